@@ -28,9 +28,9 @@ import (
 
 func init() {
 	Register(&Scenario{Prop: "C20", Name: "pubsubcoreapi-scripted", Run: scenC20CoreAPI, Weight: 1,
-		Rule: "the real pubsubcoreapi adapter over a scripted PubSub API: a drawn sequence of 3-12 membership snapshots over 5 peers (without self) returned on successive polls of the virtual clock, and a drawn interleaving of 3-20 messages from self and from remote peers with payload sizes from {0,1,17,4 KiB,128 KiB,1 MiB}; the consumer of both channels is paced by the kernel (including stalls beyond the 32/128-slot buffers); oracle: per peer the join/leave events are exactly the set differences of consecutive snapshots, in order; no message from self is delivered; every remote payload is delivered once, byte-identical, in order; non-trivial = >=2 membership changes and >=2 remote and >=1 self message; in one run of three one membership poll fails (the watcher may stop or carry on, what it reported must remain a beginning of what the snapshots imply)"})
+		Rule: "the real pubsubcoreapi adapter over a scripted PubSub API: a drawn sequence of 3-12 membership snapshots over 5 peers (without self) returned on successive polls of the virtual clock, and a drawn interleaving of 3-20 messages from self and from remote peers with payload sizes from {0,1,17,4 KiB,128 KiB,1 MiB}; the consumer of both channels is paced by the kernel (including stalls beyond the 32/128-slot buffers); oracle: per peer the join/leave events are exactly the set differences of consecutive snapshots, in order; no message from self is delivered; every remote payload is delivered once, byte-identical, in order; non-trivial = >=2 membership changes and >=2 remote and >=1 self message; in one run of three one membership poll fails (the watcher may stop or carry on, what it reported must remain a beginning of what the snapshots imply); in half the runs without a failed poll a second watcher of the same topic name starts once the membership has stopped changing (the first one still running, or cancelled): it must be told of every peer that is on the topic, each once, and of nothing else"})
 	Register(&Scenario{Prop: "C20", Name: "oneonone-pair", Run: scenC20OneOnOne, Weight: 1,
-		Rule: "two real oneonone adapters over the simulated pubsub (delivery delayed and interleaved by the kernel, no loss); both sides Connect, then 2-12 Sends from both sides interleaved with kernel steps, payload sizes from {0,1,100,64 KiB}; oracle: both ends subscribed to one and the same channel topic; each side's adapter emits exactly the payloads the other side sent (multiset, byte-identical), attributed to the other peer, and none of its own; non-trivial = both sides sent >=1 payload"})
+		Rule: "two real oneonone adapters over the simulated pubsub (delivery delayed and interleaved by the kernel, no loss); both sides Connect (1-3 callers each, each with a context of its own; in half the runs every caller of one side leaves and new ones connect right behind; in a third one end goes away altogether and, once the other has noticed, a caller there connects and sends while the absent end comes back 3-30 steps later), then 2-12 Sends from both sides interleaved with kernel steps, payload sizes from {0,1,100,64 KiB}; oracle: both ends subscribed to one and the same channel topic; each side's adapter emits exactly the payloads the other side sent (multiset, byte-identical), attributed to the other peer, and none of its own, nor what a third peer published on the pair's topic (a third of the runs); non-trivial = both sides sent >=1 payload"})
 	Register(&Scenario{Prop: "C20", Name: "directchannel-streams", Run: scenC20Direct, Weight: 1,
 		Rule: "two real directchannel adapters over the stub libp2p host; 3-10 Sends with payload sizes from {0,1,100,64 KiB,1 MiB,4 MiB-1,4 MiB,4 MiB+1} travelling in kernel-chosen chunks (1 byte .. whole frame, so short reads happen), streams interleaved; faults drawn per stream: none, reset mid-frame, truncation mid-frame, all bytes delivered but the sender's Close reports an error; plus hostile raw frames on the victim's handler (length prefix 0, exact, larger than the body, 4 MiB+1, 2^32, 2^63, 2^64-1, unterminated varint, empty stream); oracle: a frame within the limit that arrived completely produces exactly one event with the sender as peer and identical bytes; oversized, reset, truncated and malformed frames produce no event and never crash the process; frames sent afterwards are delivered; non-trivial = >=1 complete frame after >=1 refused or broken one; one step in five (outside floods) is two Send calls on the same channel at the same time, each frame having to arrive as it was sent"})
 }
@@ -281,6 +281,58 @@ func scenC20CoreAPI(k *K) {
 			k.Failf("C20/coreapi/message-content", "message #%d (%d bytes) was delivered as %d different bytes", i, len(wantMsgs[i]), len(gotMsgs[i]))
 		}
 	}
+	// a second watcher of the same topic (a store of the instance closed and opened again: the
+	// instance keeps one topic object per name) starts once the first is established; it is
+	// told of every peer that is on the topic, each once, and of nothing else (the membership
+	// does not change any more: the last snapshot is returned from here on)
+	if ps.failAt == 0 && k.C.Chance(1, 2) {
+		k.W.Stat("second-watcher-on-the-same-topic")
+		ctx2, cancel2 := context.WithCancel(context.Background())
+		k.cleanups = append(k.cleanups, cancel2)
+		topic2, err := adapter.TopicSubscribe(ctx2, "topic")
+		if err != nil {
+			panic(abortPanic{err.Error()})
+		}
+		if k.C.Chance(1, 2) {
+			cancel() // the first watcher is gone by then (its store was closed)
+			k.Wait()
+		}
+		ch2, err := topic2.WatchPeers(ctx2)
+		if err != nil {
+			panic(abortPanic{err.Error()})
+		}
+		got2 := map[peer.ID][]string{}
+		for i := 0; i < 5; i++ {
+			k.Tick(1100 * time.Millisecond)
+			for more := true; more; {
+				select {
+				case e, ok := <-ch2:
+					if !ok {
+						more = false
+						break
+					}
+					switch ev := e.(type) {
+					case *iface.EventPubSubJoin:
+						got2[ev.Peer] = append(got2[ev.Peer], "join")
+					case *iface.EventPubSubLeave:
+						got2[ev.Peer] = append(got2[ev.Peer], "leave")
+					}
+				default:
+					more = false
+				}
+			}
+		}
+		for _, o := range others {
+			var want []string
+			if prev[o] {
+				want = []string{"join"}
+			}
+			if !EqStrs(got2[o], want) {
+				k.Failf("C20/coreapi/second-watcher", "peer %d (on the topic at the end: %v): a second watcher of the topic was told %v, expected %v", indexOfPeer(others, o)+1, prev[o], got2[o], want)
+			}
+		}
+		cancel2()
+	}
 	k.Notes["membership_changes"] = changes
 	k.Notes["remote_msgs"] = remote
 	k.Notes["nontrivial"] = changes >= 2 && remote >= 2 && selfMsgs >= 1
@@ -351,6 +403,12 @@ func scenC20OneOnOne(k *K) {
 			panic(abortPanic{err.Error()})
 		}
 		chans[i] = ch
+	}
+	// the third peer of a third of the runs (it is around from the start and hears who
+	// subscribes to what)
+	var stranger *Adversary
+	if k.C.Chance(1, 3) {
+		stranger = k.NewAdversary()
 	}
 	k.F = FaultCfg{Deliver: 5, Refresh: 4, Tick: 2, Reorder: 1}
 	// several stores of one instance see the same peer join at once: 1-3 Connect calls for the
@@ -443,6 +501,61 @@ func scenC20OneOnOne(k *K) {
 		k.Settle(10*time.Second, 300, nil)
 		k.W.Stat("oneonone-callers-left-and-new-ones-connected")
 	}
+	sizes := []int{0, 1, 100, 64 * 1024}
+	var sent [2][][]byte
+	// one end goes away altogether (every caller of it leaves: its stores are closed) while the
+	// other keeps its channel; once the other end has noticed, one of its callers connects and
+	// sends (a store exchanging heads with a peer it sees again); the absent end comes back
+	// 3-30 kernel steps later. A Connect that reports success means the peer is listening:
+	// what is sent after it arrives
+	if k.C.Chance(1, 3) {
+		x := k.C.Intn(2)
+		a := 1 - x
+		for _, c := range users[x] {
+			c()
+		}
+		users[x] = nil
+		gone := func() bool {
+			k.W.mu.Lock()
+			defer k.W.mu.Unlock()
+			if len(nodes[x].Inc.subs) != 0 {
+				return false
+			}
+			for t := range nodes[a].Inc.subs {
+				if nodes[a].Inc.view[t][nodes[x].Idx] {
+					return false
+				}
+			}
+			return true
+		}
+		for j := 0; j < 600 && !gone(); j++ {
+			k.Step()
+		}
+		if gone() {
+			pl := genPayload(k, sizes, fmt.Sprintf("s%d.back:", a))
+			ua := userCtx(a)
+			aop := k.Go(a, "connect then send while the other end is away", func() (interface{}, error) {
+				if err := chans[a].Connect(ua, nodes[x].ID); err != nil {
+					return nil, err
+				}
+				return nil, chans[a].Send(ctx, nodes[x].ID, pl)
+			})
+			k.Steps(k.C.Range(3, 30))
+			ux := userCtx(x)
+			xop := k.Go(x, "the other end comes back", func() (interface{}, error) { return nil, chans[x].Connect(ux, nodes[a].ID) })
+			for j := 0; j < 800 && !(k.IsDone(aop) && k.IsDone(xop)); j++ {
+				k.Step()
+			}
+			if !k.IsDone(aop) || !k.IsDone(xop) || aop.Err != nil || xop.Err != nil {
+				k.Failf("C20/oneonone/connect", "one end left and came back while the other connected and sent: done=%v/%v err=%v/%v pending=%v", k.IsDone(aop), k.IsDone(xop), aop.Err, xop.Err, k.PendingDesc())
+			}
+			sent[a] = append(sent[a], pl)
+			k.Settle(10*time.Second, 300, nil)
+			k.W.Stat("oneonone-one-end-away-while-the-other-connects-and-sends")
+		} else {
+			k.W.Stat("oneonone-one-end-away(not noticed)")
+		}
+	}
 	// one and the same topic on both ends
 	k.W.mu.Lock()
 	var t0, t1 []string
@@ -458,10 +571,25 @@ func scenC20OneOnOne(k *K) {
 	if len(t0) != 1 || !EqStrs(t0, t1) {
 		k.Failf("C20/oneonone/channel-name", "the two ends subscribed to %v and %v", t0, t1)
 	}
-	sizes := []int{0, 1, 100, 64 * 1024}
-	var sent [2][][]byte
 	n := k.C.Range(2, 12)
+	// in a third of the runs a third peer publishes on the pair's topic in between (anybody
+	// can publish on a topic whose name is made of two public peer ids): neither end reports
+	// such a payload as sent by the other end
+	if stranger != nil && len(t0) == 1 {
+		stranger.JoinTopic(t0[0])
+		for j := 0; j < 300 && !(stranger.Sees(t0[0], nodes[0]) && stranger.Sees(t0[0], nodes[1])); j++ {
+			k.Step()
+		}
+		if !(stranger.Sees(t0[0], nodes[0]) && stranger.Sees(t0[0], nodes[1])) {
+			k.W.Stat("oneonone-third-peer-sees-nobody")
+		}
+	}
 	for i := 0; i < n; i++ {
+		if stranger != nil && len(t0) == 1 && k.C.Chance(1, 3) {
+			stranger.PublishRaw(t0[0], genPayload(k, sizes, fmt.Sprintf("stranger.%d:", i)))
+			k.W.Stat("oneonone-third-peer-publishes-on-pair-topic")
+			k.Steps(k.C.Intn(5))
+		}
 		side := k.C.Intn(2)
 		pl := genPayload(k, sizes, fmt.Sprintf("s%d.%d:", side, i))
 		sent[side] = append(sent[side], pl)
